@@ -53,6 +53,7 @@ type Proc struct {
 	Cmd      string     `json:"cmd,omitempty"`
 	Outs     []*Out     `json:"outs,omitempty"`
 	Cores    int        `json:"cores,omitempty"`
+	NoSpawn  bool       `json:"no_spawn,omitempty"` // cmd / gofunc: the process's public Spawn field is set to false
 	Prepend  string     `json:"prepend,omitempty"`
 	Feeds    []*Feed    `json:"feeds,omitempty"`
 	Files    []string   `json:"files,omitempty"`  // filesource: paths; globber: patterns
